@@ -45,7 +45,8 @@ pub enum Ty {
     Inet,
     MacAddr,
     LTree,
-    Interval(Option<u32>),
+    /// (fields: index into PG_INTERVAL_FIELDS, precision)
+    Interval(Option<u8>, Option<u32>),
     Custom(String),
 }
 
@@ -80,6 +81,8 @@ pub enum CS {
     AutoInc,
     /// CHECK (col > k)
     Check(i64),
+    /// a further CHECK (col < k) on the same column, given by its own check() call
+    CheckLt(i64),
     /// GENERATED ALWAYS AS (other + 1) STORED|VIRTUAL
     Generated(String, bool),
     Comment(String),
@@ -140,10 +143,49 @@ fn a(s: &str) -> Alias {
     Alias::new(s)
 }
 
+/// A schema statement rendered through one of its equivalent entry points: `build_any` (dynamic dispatch),
+/// `build` or `to_string` with the backend by value.
+pub fn render_schema<S: SchemaStatementBuilder>(st: &S, d: Dialect) -> String {
+    match (crate::apply::route(3), d) {
+        (0, _) => st.build_any(crate::util::sb(d)),
+        (1, Dialect::Mysql) => st.build(MysqlQueryBuilder),
+        (1, Dialect::Postgres) => st.build(PostgresQueryBuilder),
+        (1, Dialect::Sqlite) => st.build(SqliteQueryBuilder),
+        (_, Dialect::Mysql) => st.to_string(MysqlQueryBuilder),
+        (_, Dialect::Postgres) => st.to_string(PostgresQueryBuilder),
+        (_, Dialect::Sqlite) => st.to_string(SqliteQueryBuilder),
+    }
+}
+
+/// A table statement rendered directly, or wrapped in the `TableStatement` enum and rendered through
+/// that type's own entry points.
+pub fn render_table(ts: TableStatement, d: Dialect) -> String {
+    if crate::apply::route(2) == 0 {
+        return match (crate::apply::route(3), d) {
+            (0, _) => ts.build_any(crate::util::sb(d)),
+            (1, Dialect::Mysql) => ts.build(MysqlQueryBuilder),
+            (1, Dialect::Postgres) => ts.build(PostgresQueryBuilder),
+            (1, Dialect::Sqlite) => ts.build(SqliteQueryBuilder),
+            (_, Dialect::Mysql) => ts.to_string(MysqlQueryBuilder),
+            (_, Dialect::Postgres) => ts.to_string(PostgresQueryBuilder),
+            (_, Dialect::Sqlite) => ts.to_string(SqliteQueryBuilder),
+        };
+    }
+    match &ts {
+        TableStatement::Create(x) => render_schema(x, d),
+        TableStatement::Alter(x) => render_schema(x, d),
+        TableStatement::Drop(x) => render_schema(x, d),
+        TableStatement::Rename(x) => render_schema(x, d),
+        TableStatement::Truncate(x) => render_schema(x, d),
+    }
+}
+
 impl Ty {
     pub fn column_type(&self) -> ColumnType {
         match self {
             Ty::Char(n) => ColumnType::Char(*n),
+            Ty::Str(StringLen::None) if crate::apply::route(2) == 0 => ColumnType::string(None),
+            Ty::Str(StringLen::N(n)) if crate::apply::route(2) == 0 => ColumnType::string(Some(*n)),
             Ty::Str(l) => ColumnType::String(*l),
             Ty::Text => ColumnType::Text,
             Ty::Blob => ColumnType::Blob,
@@ -165,6 +207,7 @@ impl Ty {
             Ty::Date => ColumnType::Date,
             Ty::Year => ColumnType::Year,
             Ty::Binary(n) => ColumnType::Binary(*n),
+            Ty::VarBinary(StringLen::N(n)) if crate::apply::route(2) == 0 => ColumnType::var_binary(*n),
             Ty::VarBinary(l) => ColumnType::VarBinary(*l),
             Ty::Bit(n) => ColumnType::Bit(*n),
             Ty::VarBit(n) => ColumnType::VarBit(*n),
@@ -180,7 +223,8 @@ impl Ty {
             Ty::Inet => ColumnType::Inet,
             Ty::MacAddr => ColumnType::MacAddr,
             Ty::LTree => ColumnType::LTree,
-            Ty::Interval(p) => ColumnType::Interval(None, *p),
+            Ty::Interval(f, p) => ColumnType::Interval(f.map(pg_interval), *p),
+            Ty::Custom(w) if crate::apply::route(2) == 0 => ColumnType::custom(w.as_str()),
             Ty::Custom(w) => ColumnType::Custom(a(w).into_iden()),
         }
     }
@@ -271,8 +315,21 @@ pub fn postgres_types() -> Vec<Ty> {
         Ty::Inet,
         Ty::MacAddr,
         Ty::LTree,
-        Ty::Interval(None),
-        Ty::Interval(Some(3)),
+        Ty::Interval(None, None),
+        Ty::Interval(None, Some(3)),
+        Ty::Interval(Some(0), None),
+        Ty::Interval(Some(6), None),
+        Ty::Interval(Some(8), None),
+        Ty::Interval(Some(5), Some(2)),
+        Ty::Interval(Some(9), Some(6)),
+        Ty::Interval(Some(10), None),
+        Ty::Interval(Some(11), Some(3)),
+        Ty::Interval(Some(12), Some(0)),
+        Ty::Interval(Some(1), None),
+        Ty::Interval(Some(2), None),
+        Ty::Interval(Some(3), None),
+        Ty::Interval(Some(4), None),
+        Ty::Interval(Some(7), None),
         Ty::Custom("citext".into()),
     ]);
     v
@@ -286,13 +343,108 @@ pub fn types_of(d: Dialect) -> Vec<Ty> {
     }
 }
 
+/// Sets the column's type through the dedicated `ColumnDef` method; false when there is none for `ty`.
+fn typed_setter(c: &mut ColumnDef, ty: &Ty) -> bool {
+    match ty {
+        Ty::Char(None) => c.char(),
+        Ty::Char(Some(n)) => c.char_len(*n),
+        Ty::Str(StringLen::None) => c.string(),
+        Ty::Str(StringLen::N(n)) => c.string_len(*n),
+        Ty::Text => c.text(),
+        Ty::Blob => c.blob(),
+        Ty::TinyInt => c.tiny_integer(),
+        Ty::SmallInt => c.small_integer(),
+        Ty::Int => c.integer(),
+        Ty::BigInt => c.big_integer(),
+        Ty::TinyU => c.tiny_unsigned(),
+        Ty::SmallU => c.small_unsigned(),
+        Ty::Unsigned => c.unsigned(),
+        Ty::BigU => c.big_unsigned(),
+        Ty::Float => c.float(),
+        Ty::Double => c.double(),
+        Ty::Decimal(None) => c.decimal(),
+        Ty::Decimal(Some((p, s))) => c.decimal_len(*p, *s),
+        Ty::DateTime => c.date_time(),
+        Ty::Timestamp => c.timestamp(),
+        Ty::TimestampTz => c.timestamp_with_time_zone(),
+        Ty::Time => c.time(),
+        Ty::Date => c.date(),
+        Ty::Year => c.year(),
+        Ty::Binary(1) if crate::apply::route(2) == 0 => c.binary(),
+        Ty::Binary(n) => c.binary_len(*n),
+        Ty::VarBinary(StringLen::N(n)) => c.var_binary(*n),
+        Ty::Bit(n) => c.bit(*n),
+        Ty::VarBit(n) => c.varbit(*n),
+        Ty::Bool => c.boolean(),
+        Ty::Money(None) => c.money(),
+        Ty::Money(Some((p, s))) => c.money_len(*p, *s),
+        Ty::Json => c.json(),
+        Ty::JsonB => c.json_binary(),
+        Ty::Uuid => c.uuid(),
+        Ty::Enum(n, v) => c.enumeration(a(n), v.iter().map(|x| a(x))),
+        Ty::Array(t) => c.array(t.column_type()),
+        Ty::Vector(n) => c.vector(*n),
+        Ty::Cidr => c.cidr(),
+        Ty::Inet => c.inet(),
+        Ty::MacAddr => c.mac_address(),
+        Ty::LTree => c.ltree(),
+        Ty::Interval(f, p) => c.interval(f.map(pg_interval), *p),
+        Ty::Custom(w) => c.custom(a(w)),
+        Ty::Str(StringLen::Max) | Ty::VarBinary(_) => return false,
+    };
+    true
+}
+
+pub const PG_INTERVAL_FIELDS: [&str; 13] = [
+    "YEAR", "MONTH", "DAY", "HOUR", "MINUTE", "SECOND", "YEAR TO MONTH", "DAY TO HOUR", "DAY TO MINUTE", "DAY TO SECOND", "HOUR TO MINUTE", "HOUR TO SECOND",
+    "MINUTE TO SECOND",
+];
+
+/// the fields of a Postgres interval, by index into PG_INTERVAL_FIELDS: the variant itself, or parsed from
+/// its documented spelling (in any case, with surrounding blanks)
+pub fn pg_interval(k: u8) -> PgInterval {
+    use std::convert::TryFrom;
+    let by_variant = [
+        PgInterval::Year,
+        PgInterval::Month,
+        PgInterval::Day,
+        PgInterval::Hour,
+        PgInterval::Minute,
+        PgInterval::Second,
+        PgInterval::YearToMonth,
+        PgInterval::DayToHour,
+        PgInterval::DayToMinute,
+        PgInterval::DayToSecond,
+        PgInterval::HourToMinute,
+        PgInterval::HourToSecond,
+        PgInterval::MinuteToSecond,
+    ];
+    let text = PG_INTERVAL_FIELDS[k as usize % 13];
+    match crate::apply::route(4) {
+        0 => PgInterval::try_from(text).expect("documented spelling"),
+        1 => PgInterval::try_from(format!(" {} ", text.to_lowercase())).expect("documented spelling"),
+        2 => PgInterval::try_from(&text.to_string()).expect("documented spelling"),
+        _ => by_variant[k as usize % 13].clone(),
+    }
+}
+
 impl Col {
     pub fn column_def(&self) -> ColumnDef {
         self.column_def_opt(true)
     }
     /// `with_type = false`: a ColumnDef carrying specifications only (Postgres modify_column)
     pub fn column_def_opt(&self, with_type: bool) -> ColumnDef {
-        let mut c = if with_type { ColumnDef::new_with_type(a(&self.name), self.ty.column_type()) } else { ColumnDef::new(a(&self.name)) };
+        let mut c = if with_type {
+            // the type through ColumnDef's own setter where it has one, else through the constructor
+            let mut c = ColumnDef::new(a(&self.name));
+            if crate::apply::route(2) == 0 && typed_setter(&mut c, &self.ty) {
+                c
+            } else {
+                ColumnDef::new_with_type(a(&self.name), self.ty.column_type())
+            }
+        } else {
+            ColumnDef::new(a(&self.name))
+        };
         for s in &self.specs {
             match s {
                 CS::NotNull => {
@@ -323,6 +475,9 @@ impl Col {
                 }
                 CS::Check(k) => {
                     c.check(Expr::col(a(&self.name)).gt(*k));
+                }
+                CS::CheckLt(k) => {
+                    c.check(Expr::col(a(&self.name)).lt(*k));
                 }
                 CS::Generated(other, stored) => {
                     c.generated(Expr::col(a(other)).add(1), *stored);
